@@ -168,6 +168,7 @@ pub fn gen_plan(cx: &mut Ctx, o: &PlanOpts) -> Plan {
             has_abort = true;
         }
         recs.extend(srecs);
+        junk_reserved(cx, &mut recs);
         all.extend(recs);
         bounds.push((start, all.len()));
         metas.push((id, role, flags, has_abort));
@@ -613,6 +614,7 @@ async fn handler_seq(req: &mut Req<'_>, st: &mut HState) -> io::Result<ExitStatu
                     Ok(w) => w,
                     Err(p) => { st.fail(Violation::new("c09_output_stream", "", format!("output_stream panicked although writeable: {p}"))); return Ok(ExitStatus::SUCCESS); }
                 };
+                vcheck_h(st, w.stream() == stream, "c10_writer_stream", "StreamWriter::stream() differs from the stream it was created for");
                 let data = gen_write_data(st, u8::from(stream), seq);
                 seq += 1;
                 writes += 1;
